@@ -412,7 +412,8 @@ fn c06_build_matrix() -> MatrixResult {
         }
     }
     // bare-metal consumer: only `core` in the sysroot
-    let consumer = format!("{}/sim/nostd-consumer", root);
+    let consumer = std::env::var("ELFSIM_CONSUMER_DIR")
+        .unwrap_or_else(|_| format!("{}/sim/nostd-consumer", root));
     let argv: Vec<String> = vec![
         "+nightly".into(),
         "build".into(),
